@@ -126,9 +126,17 @@ Definition tables_ok (c : case) : bool :=
 Definition run_raw_rhs (c : case) : list Q :=
   map (raw_rhs fsem_lib (env_of (k_rates c)) (k_raw c)) (m_vars (k_model c)).
 
+(** every surrogate output has, in the environment read from the implementation, the value the
+    surrogate's function gives at the argument values (ties [m_surr] to Model.get_args) *)
+Definition surr_ok (c : case) : bool :=
+  let env := env_of (k_rates c) in
+  forallb (fun s => forallb (fun o => Qeq_bool (env (fst o)) (fsem_lib (snd o) (map env (su_args (snd s))))) (su_outs (snd s)))
+          (m_surr (k_model c)).
+
 Definition case_ok (F : sym_facts) (c : case) : bool :=
   sym_obs_eqb (run_sym F (k_model c) (k_point c)) (k_sym c)
   && clo_obs_eqb (run_closure F (k_model c) (k_time c) (k_x c)) (k_clo c)
   && qlist_eqb (run_num_rhs (k_model c) (k_rates c)) (k_rhs c)
   && tables_ok c
-  && qlist_eqb (run_raw_rhs c) (k_rhs c).
+  && qlist_eqb (run_raw_rhs c) (k_rhs c)
+  && surr_ok c.
